@@ -322,8 +322,13 @@ class GraphSim:
         idx = self._pick_node(g, actor, "meta-node")
         key = ch.pick(["k", "name", "né", "extra"], "meta-key")
         val = ch.pick([1, "v", [1, {"x": None}], {"a": "b"}, None, 2 ** 60, False], "meta-val2")
-        via = ch.draw(2, "meta-via")
-        if via == 0:
+        via = ch.draw(3, "meta-via")
+        if via == 2:
+            # the node data's dictionary is replaced as a whole (NodeData is a plain record)
+            nd = g.h[self._handle(g, idx)]
+            nd.metadata = {**nd.metadata, key: val}
+            self.ctx.probe("metadata_dictionary_replaced")
+        elif via == 0:
             g.h[self._handle(g, idx)].metadata[key] = val
         else:
             # the handle stored by the engine was returned by the API and shares the node's dictionary
